@@ -212,16 +212,21 @@ impl Selector {
         // such as "x > div div > div div > div div" takes time exponential in
         // the number of combinators on deeply nested elements.
         let mut tried: HashSet<(usize, usize)> = HashSet::new();
+        //
+        // A choice is only given up once every ancestor further up has been
+        // tried in its place, and at most one choice per position in the
+        // selector is open at any time.  So when the nearest candidate has
+        // been tried before, all the candidates above it have been as well:
+        // there is nothing left to offer, and no need to step over them one
+        // by one (which made matching quartic in the size of the input).
         let mut next_untried = |compound: &[SelectorComponent],
                                 above: &[SelectorComponent],
                                 start: Option<Handle>| {
-            let mut start = start;
-            loop {
-                let candidate = Self::nearest_matching(compound, start)?;
-                if tried.insert((above.len(), Rc::as_ptr(&candidate) as usize)) {
-                    return Some(candidate);
-                }
-                start = candidate.get_parent();
+            let candidate = Self::nearest_matching(compound, start)?;
+            if tried.insert((above.len(), Rc::as_ptr(&candidate) as usize)) {
+                Some(candidate)
+            } else {
+                None
             }
         };
         let mut comps = comps;
